@@ -1,0 +1,44 @@
+// Copyright © 2024 Kaleido, Inc.
+//
+// SPDX-License-Identifier: Apache-2.0
+//
+// Licensed under the Apache License, Version 2.0 (the "License");
+// you may not use this file except in compliance with the License.
+// You may obtain a copy of the License at
+//
+//     http://www.apache.org/licenses/LICENSE-2.0
+//
+// Unless required by applicable law or agreed to in writing, software
+// distributed under the License is distributed on an "AS IS" BASIS,
+// WITHOUT WARRANTIES OR CONDITIONS OF ANY KIND, either express or implied.
+// See the License for the specific language governing permissions and
+// limitations under the License.
+
+//go:build verif
+
+package rpcbackend
+
+import (
+	"context"
+
+	"github.com/hyperledger/firefly-common/pkg/log"
+	"github.com/hyperledger/firefly-common/pkg/wsclient"
+)
+
+// NewWSRPCClientWithTransport is a verification hook. It is only compiled with the
+// build tag "verif" and adds no behaviour to the normal build.
+//
+// It builds the WebSocket RPC client around a caller-supplied transport instead of the
+// one Connect() would dial, starts the receive loop exactly as Connect() does, and
+// returns the after-connect callback that Connect() registers with wsclient.New (the
+// function the real transport invokes after every connect and reconnect). A test
+// harness that owns the transport can then replay bounded sequences of frames,
+// connection drops and reconnects deterministically.
+//
+// The receive loop ends when the transport closes the channel returned by Receive().
+func NewWSRPCClientWithTransport(ctx context.Context, wsConf *wsclient.WSConfig, transport wsclient.WSClient) (WebSocketRPCClient, wsclient.WSPostConnectHandler) {
+	rc := NewWSRPCClient(wsConf).(*wsRPCClient)
+	rc.client = transport
+	go rc.receiveLoop(log.WithLogField(ctx, "role", "rpc_websocket"))
+	return rc, rc.handleReconnect
+}
